@@ -95,4 +95,42 @@ CLAIMED["C09"] = {
           "1,2,3,4,5,10,11,30: success at b must be reproduced identically at every larger budget; implementation = extracted model at every budget (bits, symbols, pass count).",
   "design_ref": "6/C09", "note": COMMON_NOTE + RESOLVER_NOTE + " Asm blocks (inner loop reusing the budget) are outside the proved fragment.",
   "technique": "Coq proof (generic loop theory instantiated; eval_mono; mode agreement per node kind) + budget-sweep metamorphic comparison + differential correspondence"}
-NOT_CLAIMED = {}
+CLAIMED["C03"] = {
+  "text": "PARTIAL BY NATURE for crashes. Proved: theorems about the control-flow shape of asm::assemble and driver::assemble_with_command/drive/main, for every instantiation of the abstract phases "
+          "satisfying the per-phase obligations listed in TopShape.phase_obligations (Err => an error is in the report; the phases after the last stop_at_errors are quiet on Ok): output => error-free report; "
+          "no output => >=1 error and error flag; the code's own assert!/unwraps cannot fire; driver Ok => exit 0 and one action per group, Err => exit != 0 and nothing printed/written unless the error is a failed write; "
+          "the pre-fix shape is refuted with F1/F31 witnesses. Table obligation re-proved each run: the call sequence regenerated from src/asm/mod.rs, driver.rs, main.rs, report.rs equals the modelled shape. "
+          "Observed on every run: the property's predicate (exactly one of clean success / loud failure, never panic/signal/timeout) on ~39k library-level token mutants of the corpus and of generated programs "
+          "(non-ASCII anywhere, all option combinations), ~5k driver + single-permanent-I/O-fault cases on a logging mock file server and ~1.5k real-binary runs.",
+  "design_ref": "6/C03", "note": COMMON_NOTE + " The per-phase obligations are assumed (checked by reading, exercised by the streams), not proved of the Rust code; panics inside phases, stack overflow, OOM and non-termination are observed only (C19 owns limits). Known finding F64 (unwritable stdout/stderr panics).",
+  "technique": "Coq (generic shape interpreter, vm_compute table obligations over the translated call sequence, refutation witnesses) + spec-predicate monitoring of library/driver/real-binary runs under token-level mutation and single I/O faults"}
+CLAIMED["C10"] = {
+  "text": "PARTIAL BY NATURE. Proved: for every place where /repo/src iterates a hash container (re-inventoried from the current source by a text-level scan on every run) the model of what the code computes from the "
+          "iteration is independent of the iteration order, for all contents and all permutations (sorting by an injective declaration index, commuting inserts under an injective renaming, membership-only uses; the pre-fix F16 code is refuted); "
+          "table obligations re-proved each run: every iteration site / hand-over found is in the covered list with the hash of the code it was read from, and the regenerated list of statics / time / randomness / environment / addresses / "
+          "threads / Debug formatting equals the justified list. Observed: byte equality of every output format, the symbols and the printed diagnostics across fresh processes of the real binary, repeated runs and 16 simultaneous threads in one "
+          "process, different in-process histories, debug vs release, over the corpus, generated programs and command lines.",
+  "design_ref": "6/C10", "note": COMMON_NOTE + " The scanner is regex-level (aliases and renaming imports fail loudly; dependency crates invisible). Process/thread/hash-seed independence as such is observed, not proved.",
+  "technique": "Coq proof (Permutation induction, fold commutation, sorted-uniqueness) + vm_compute table obligations over a source inventory regenerated each run + process/thread/history differential runs"}
+CLAIMED["C12"] = {
+  "text": "Proved for all bit vectors, span lists, file sets and symbol trees: the rows computed by the modelled annotated / tcgame / addrspan formatters list every span exactly once in output order with position "
+          "(offset / group_bits, offset mod group_bits), address, digits that expand to the item's bits zero-padded, and source text or line/column (C13's function); digits round-trip for bases 2..128; the symbol file lists exactly the "
+          "emitted declared symbols in per-level declaration order whatever the hash order; the Mesen offset formula with its >= 0 guard. Tied to the code on each run: implementation text = extracted model text on generated multi-bank, "
+          "bit-granular programs with includes, nested labels and suppressed constants x bases x group sizes; the extracted row/symbol checkers and an independent Python reading are evaluated on the implementation's own text against its own spans, bits and symbols.",
+  "design_ref": "6/C12", "note": COMMON_NOTE + " Character-level rendering (widths, padding) is stated, unproved, and checked on every generated case. F53 (rows showing bits of the next item) was found by this property and fixed.",
+  "technique": "Coq proof (layout-level model + declarative row checkers) + differential correspondence + extracted checkers on implementation output + sensitivity controls"}
+CLAIMED["C15"] = {
+  "text": "Proved for all declaration sequences and reference points: the symbol-table lookup of the model equals lexical scope resolution on the declaration forest (C15_lookup); declaration errors are exactly duplicate-in-scope and skipped level; "
+          "an undeclared (non-reserved) reference that is evaluated never yields a value in the final pass; resolution depends only on the final forest and the enclosing declarations (forward references); for stable tables every address-free "
+          "acyclic constant equals its denotation and any two orderings agree (partial: that the pre-pass stops in a stable table, and its fuel bound, are not proved). Tied to the code by ~9M lookups through the real parser/collect/try_get_by_name, "
+          "~17k one-reference whole programs, per-round pre-pass comparisons and metamorphic constant-order pairs; the extracted Scope spec and an independent Python resolver are evaluated on the implementation's answers.",
+  "design_ref": "6/C15", "note": COMMON_NOTE + " Known finding F54 (symbols named like built-ins). Reading: any symbol (label or constant) opens a scope.",
+  "technique": "Coq proof (refinement of the symbol-manager model to a forest spec) + differential correspondence + spec-on-implementation + metamorphic order stream"}
+CLAIMED["C16"] = {
+  "text": "Proved for all #if trees, define lists and both settings of the static switch about the model of the first loop of assemble: the condition evaluator is monotone in the information order; if the loop ends Ok the final node list "
+          "equals the direct interpreter `select` under the final valuation with every met condition decided; every declaration belongs to a node of the selected world; a define's value is the final value of the same-named constant and the "
+          "only definite value it ever had; every define names a declared constant; override and unused check agree on hierarchical names. Tied to the code on each run by generated #if/#elif/#else trees to depth 4 x real -d arguments "
+          "through the private driver (debug+release, both switches): implementation = extracted model; extracted `select` evaluated on the implementation's own symbol table; program vs its selected world.",
+  "design_ref": "6/C16", "note": COMMON_NOTE + " Known finding F55 (nested symbol across #if). Fuel sufficiency and absence of panic values of the model are monitored at run time, not proved.",
+  "technique": "Coq proof (induction on expressions; loop invariant preserved by collect/resolve/splice; induction on fuel) + differential correspondence + extracted spec on implementation output + metamorphic"}
+NOT_CLAIMED = {"C17": "check under construction (asm-block/function models and macro-vs-inline streams)", "C19": "check under construction (guard model, limit sweeps)"}
